@@ -329,6 +329,10 @@ var (
 	dmReRangeArity      = regexp.MustCompile(`InclusiveRange<[^<>]*,`)
 	dmReContainerInsert = regexp.MustCompile(`\.(append|insert)\b`)
 	dmReDestroyEvent    = regexp.MustCompile(`event\s+ResourceDestroyed`)
+	dmReOptChainCall    = regexp.MustCompile(`\?\.\w+\(`)
+	dmReForceCastOptRes = regexp.MustCompile(`as!\s*@[^\n;]*\?`)
+	dmReRefToArray      = regexp.MustCompile(`as\s+(auth\([^)]*\)\s*)?&\[`)
+	dmReArrayCopyFn     = regexp.MustCompile(`\.(slice|concat|filter|map|reverse|toVariableSized|toConstantSized)\(`)
 )
 
 // featureSignature names the known defect shape a (shrunk) failing program exhibits, from the Go type
@@ -355,6 +359,20 @@ func dmFeatureSignature(v dmVerdict, engine string, text string, failingStepKind
 		// a value inserted through a covariant alias ([AnyStruct] of a [Int8]) is converted to the number
 		// element type before its type is checked
 		return "covariant-container-insert-number-convert"
+	case v.GoType == "UnreachableInstructionError" && dmReOptChainCall.MatchString(text) && strings.Contains(text, "): Never"):
+		// `s?.halt()` with halt(): Never is counted as a definite halt by the checker (no missing-return
+		// error), the function then falls off its end
+		return "optchain-never-call-definite-halt"
+	case v.GoType == "InvalidatedResourceError" && engine == "interpreter" && dmReForceCastOptRes.MatchString(text):
+		// `<- r as! @R?` followed by a use of the result
+		return "force-cast-resource-to-optional"
+	case v.GoType == "ValueTransferTypeError" && dmReRefToArray.MatchString(text) && dmReArrayCopyFn.MatchString(text):
+		// slice/concat/... through a reference whose element type is wider than the array's
+		return "array-copy-through-wider-reference"
+	case strings.HasPrefix(v.GoType, "UnexpectedError") && engine == "interpreter" &&
+		strings.Contains(v.Msg, "nil pointer dereference") && strings.HasSuffix(v.Frame, "EphemeralReferenceValue.StaticType"):
+		// plain copy of a reference whose resource was moved/destroyed (known_findings/C04.json)
+		return "copy-invalidated-reference"
 	case strings.HasPrefix(v.GoType, "UnexpectedError") && engine == "vm" && strings.HasPrefix(msg, "cannot find global declaration") &&
 		dmReEmitCond.MatchString(text) && dmReImport.MatchString(text):
 		return "vm-inherited-emit-condition-foreign-type"
